@@ -172,3 +172,48 @@ fn c11_setcookie_value_roundtrip() {
     kani::cover!(secure && httponly, "both flags");
     std::mem::forget(c); std::mem::forget(it); std::mem::forget(res);
 }
+
+// @verif prop=C11 tier=off mem=16 timeout=1500 unwindset="Iter.*IndexMap.*\.0 :8" bounds="SetCookie(`id`, value of 2 arbitrary ASCII bytes incl. ';' ',' SP CTL '%', no directives): the emitted line is `id=` + cookie-octets / %XX escapes that decode to the value"
+#[kani::proof]
+#[kani::stub(ohkami::util::unix_timestamp, stubs::unix_timestamp_zero)]
+#[kani::stub(core::str::from_utf8, stubs::from_utf8_model)]
+#[kani::unwind(12)]
+fn c11_setcookie_value_is_encoded() {
+    let value = sym_static_str::<2>(any_ascii);
+    let mut res = Response::new(Status::OK);
+    res.headers.set().SetCookie("id", value, |d| d);
+    let mut line: Option<&str> = None;
+    let mut n_lines = 0;
+    for (k, v) in res.headers.iter() {
+        if k.len() == 10 && k.as_bytes()[0] == b'S' && k.as_bytes()[3] == b'-' { line = Some(v); n_lines += 1; }
+    }
+    assert!(n_lines == 1, "C11: not exactly one Set-Cookie line");
+    let l = line.unwrap().as_bytes();
+    assert!(l.len() >= 3 && l[0] == b'i' && l[1] == b'd' && l[2] == b'=', "C11: Set-Cookie does not start with name=");
+    // single pass: cookie-octets other than '%' stand for themselves, %XX for the byte XX; nothing else may appear
+    let hex = |c: u8| -> Option<u8> { if c >= b'0' && c <= b'9' { Some(c - b'0') } else if c >= b'A' && c <= b'F' { Some(c - b'A' + 10) } else if c >= b'a' && c <= b'f' { Some(c - b'a' + 10) } else { None } };
+    let (mut i, mut k) = (3usize, 0usize);
+    let v = value.as_bytes();
+    while i < l.len() {
+        let c = l[i];
+        let decoded = if c == b'%' {
+            assert!(i + 2 < l.len() + 0 || i + 2 == l.len() - 0 + 0 || i + 2 < l.len(), "C11: truncated escape");
+            assert!(i + 2 < l.len() + 1, "C11: truncated escape in the cookie value");
+            let (h, lo) = (hex(l[i + 1]), hex(l[i + 2]));
+            assert!(h.is_some() && lo.is_some(), "C11: `%` in the emitted cookie value is not an escape (a literal `%` was sent verbatim)");
+            i += 3;
+            h.unwrap() * 16 + lo.unwrap()
+        } else {
+            assert!(c == 0x21 || (c >= 0x23 && c <= 0x2B) || (c >= 0x2D && c <= 0x3A) || (c >= 0x3C && c <= 0x5B) || (c >= 0x5D && c <= 0x7E),
+                "C11: the emitted cookie value contains a byte that is not a cookie-octet (`;`, `,`, space, control, quote, backslash)");
+            i += 1;
+            c
+        };
+        assert!(k < 2 && decoded == v[k], "C11: the emitted cookie value does not decode to the value that was set");
+        k += 1;
+    }
+    assert!(k == 2, "C11: the emitted cookie value is shorter than the value that was set");
+    kani::cover!(v[0] == b'%', "value with a percent sign");
+    kani::cover!(v[0] == b';', "value with a semicolon");
+    std::mem::forget(res);
+}
